@@ -640,18 +640,18 @@ def r6_depth(ck, F):
     g = F.body(A("reader_levels"))
     ck.ob(R, "reader-levels-getter", is_self_field(g.expr_at_return(), "metadata", "index_levels"), f"Reader::index_levels returns {g.expr_at_return().show()}", g)
     ini = F.body(A("ibc_initial"))
-    # depth = index_levels as usize + 1
-    rng = [e for s, c, t in ini.calls() for e in ini.arg_exprs(s) if False]
+    # the loop that loads the levels runs index_levels + 1 times: `for _ in 0..index_levels as usize + 1`,
+    # `0..=index_levels`, or `while v.len() < index_levels + 1 { ..; v.push(..) }` (the forms C16-R3 recognises)
+    from .c16 import Cost
+    C = Cost(F, ck, R)
+    loads = [s for s, c, t in calls(ini, A("block_new"))]
     found = False
-    for site, st in ini.sites():
-        if site.i is not None and st["s"] == "assign" and st["rv"]["rv"] == "agg" and st["rv"].get("adt", "").endswith("ops::Range"):
-            e = ini._expr_of_def((site, "assign", st["rv"]))
-            lo, hi = e.a[0], e.a[1]
-            c_ = checked(hi)
-            ok = const_val(lo) == 0 and bool(c_ and c_[0] == "Add" and const_val(c_[2]) == 1 and is_self_field(strip_casts(c_[1]), "index_levels"))
-            ck.ob(R, "reader-depth", ok, f"initial_index_blocks loads levels {lo.show()}..{hi.show()} (expected 0..index_levels+1)", ini, site)
-            found = True
-    ck.ob(R, "reader-depth-loop-found", found, "initial_index_blocks iterates a 0..depth range", ini, nontrivial=False)
+    for h, blks in ini.loops():
+        if not any(s.bb in blks for s in loads):
+            continue
+        found = True
+        ck.ob(R, "reader-depth", C._loop_bound(ini, h, blks) == "D", f"the loop of initial_index_blocks that loads the index levels (at {ini.loc(Site(h, None))}) runs index_levels + 1 times", ini, Site(h, None))
+    ck.ob(R, "reader-depth-loop-found", found, "initial_index_blocks loads the index levels in a loop", ini, nontrivial=False)
 
 
 # ---------------------------------------------------------------------------------------
